@@ -13,11 +13,8 @@ if ! git apply --check $PATCH 2>/dev/null; then echo "$ID: PATCH DOES NOT APPLY 
 git apply $PATCH
 if ! go build ./... >/tmp/confirm-$ID.log 2>&1; then echo "$ID: BUILD FAILS"; exit 4; fi
 if ! go test -vet=off -count=1 ./... >>/tmp/confirm-$ID.log 2>&1; then echo "$ID: SUITE FAILS with patch"; exit 5; fi
-PKG=engine
-grep -q "utils/" <<<"$(python3 -c "import json;print(json.load(open('$SRC/meta.json')).get('demo'))")" && PKG=utils
-grep -q "webtransport/" <<<"$(python3 -c "import json;print(json.load(open('$SRC/meta.json')).get('demo'))" | head -c 120)" && PKG=webtransport
-head -5 $SRC/demo_test.go | grep -q "^package utils" && PKG=utils
-head -5 $SRC/demo_test.go | grep -q "^package webtransport" && PKG=webtransport
+PKG=$(grep -m1 -oE "^package [a-z_]+" $SRC/demo_test.go | awk '{print $2}' | sed 's/_test$//')
+[ -d "$PKG" ] || PKG=engine
 cp $SRC/demo_test.go $PKG/zz_demo_test.go
 RX=$(grep -oE "^func (Test[A-Za-z0-9_]+)" $SRC/demo_test.go | awk '{print $2}' | paste -sd'|')
 GO=go
